@@ -1,0 +1,31 @@
+//go:build !verif
+
+package dicescript
+
+import (
+	"golang.org/x/exp/rand"
+)
+
+// Simulation hooks are compiled out unless the `verif` build tag is set.
+// Every call site is guarded by `if verifOn && ...`, which the compiler removes.
+
+const verifOn = false
+
+const (
+	verifSiteLangSet   = 3
+	verifSiteFormatErr = 4
+)
+
+func verifStep(ctx *Context, opIndex int, code ByteCode, blockIndex, fstrBlockIndex, detailsLen, diceStateIndex int) bool {
+	return false
+}
+
+func verifRoll(src *rand.PCGSource, dicePoints IntType, mod int) (IntType, bool) {
+	return 0, false
+}
+
+func verifYield(site int) {}
+
+func verifRangeSorted(m map[string]*entryValueMap, f func(key string, value *VMValue) bool) bool {
+	return false
+}
